@@ -167,7 +167,7 @@ def ring_cases(rng, ids, tier):
         for size in sizes:
             m = rmsg(rng, rng.choice([5, 10, 20]))
             muts = bn_muts(rng, "td", nbits, 1 if quick else 8) + pt_muts(rng, "pp", 1, full=not quick)
-            for j in range(size if not quick else 1):
+            for j in (sorted(set([0, size - 1])) if not quick else [0]):
                 muts += ring_entry_muts(rng, j, nbits, quick)
                 muts += pt_muts(rng, "h%d" % j, 1, full=not quick) + pt_muts(rng, "pk%d" % j, 1, full=not quick)
                 muts += ["cp:pk%d:fpk" % j]
@@ -185,7 +185,7 @@ def ring_cases(rng, ids, tier):
         for size in ([2] if quick else ([1, 3] if ci == 0 else [2])):
             m = rmsg(rng, rng.choice([5, 10, 20]))
             muts = bn_muts(rng, "td", nbits, 1, full=not quick) + ["pp:dbl"]
-            for j in (range(size) if not quick else [0]):
+            for j in (sorted(set([0, size - 1])) if not quick else [0]):
                 muts += ring_entry_muts(rng, j, nbits, quick, names=("d", "t"))
                 if not quick and j == 0:
                     muts += ring_entry_muts(rng, j, nbits, quick)
